@@ -201,6 +201,48 @@ def _task(args):
   return res
 
 
+class _RegressClause(object):
+  kind = "enumerated"
+  name = "regress"
+  floors = {}
+  doc = "saved inputs (shrunk failures of repaired defects and seeded changes) replayed without Hypothesis"
+
+
+def _run_regress(mod):
+  """Replay tier: every regress/<ID>/*.json is run through its clause."""
+  d = os.path.join(ROOT, "regress", mod.ID)
+  if not os.path.isdir(d):
+    return []
+  byname = dict((c.name, c) for c in mod.CLAUSES)
+  stats = _Stats()
+  err = None
+  for fn in sorted(os.listdir(d)):
+    if not fn.endswith(".json"):
+      continue
+    with open(os.path.join(d, fn)) as f:
+      doc = json.load(f)
+    clause = byname.get(doc.get("clause"))
+    if clause is None:
+      err = "regress file %s names unknown clause %r" % (fn, doc.get("clause"))
+      continue
+    try:
+      _guarded(clause, codec.dec(doc["case"]), stats)
+    except Reject:
+      pass
+    except (Exception, OverRead):
+      pass
+    if stats.fail is not None:
+      stats.fail["clause"] = doc["clause"]
+      stats.fail["detail"] = "saved input %s fails again: %s" % (fn, stats.fail["detail"])
+      break
+  if _RegressClause not in mod.CLAUSES:
+    mod.CLAUSES.append(_RegressClause)
+  res = stats.result()
+  res["error"] = err
+  res["clause"] = mod.CLAUSES.index(_RegressClause)
+  return [res]
+
+
 def load_known():
   path = os.path.join(ROOT, "known_findings.json")
   if not os.path.exists(path):
@@ -263,6 +305,7 @@ def run_property(mod, tier, seedv, only=None, jobs=None):
 
   # merge per clause
   per = {}
+  results = list(results) + _run_regress(mod)
   for r in results:
     c = mod.CLAUSES[r["clause"]]
     m = per.setdefault(c.name, {"evals": 0, "rejected": 0, "nt": set(), "labels": {},
@@ -300,7 +343,7 @@ def run_property(mod, tier, seedv, only=None, jobs=None):
         h = "%016x" % codec.chash(codec.dec(f["case"]))
         path = os.path.join(ROOT, "replays", "%s-%s-%s.json" % (mod.ID, name, h[:10]))
         with open(path, "w") as fh:
-          json.dump({"property": mod.ID, "clause": name, "case": f["case"],
+          json.dump({"property": mod.ID, "clause": f.get("clause", name), "case": f["case"],
                      "detail": f["detail"], "site": site, "seed": seedv, "tier": tier},
                     fh, indent=1, sort_keys=True)
         violations.append((path, name, f["detail"]))
